@@ -158,3 +158,36 @@ pub fn twin<S: Src>(s: &mut S) {
     s.reached();
     assert!(r.is_err(), "TWIN");
 }
+
+// ---- probes (feasibility measurements, not registered in MANIFEST) ----------------------------------------------
+pub fn probe_serialize_const<S: Src>(s: &mut S) {
+    let text = U256Wrapper(U256::new(42)).serialize(Capture).unwrap_or_default();
+    s.reached();
+    assert!(text.len() == 66, "PROBE serialise constant");
+}
+
+pub fn probe_parse_const<S: Src>(s: &mut S) {
+    let text = String::from("0x000000000000000000000000000000000000000000000000000000000000002a");
+    let back = U256Wrapper::deserialize(StringDeserializer::<Error>::new(text));
+    s.reached();
+    assert!(matches!(back, Ok(w) if *w.0.low() == 42), "PROBE parse constant");
+}
+
+pub fn probe_parse_sym<S: Src>(s: &mut S) {
+    let mut bytes = [b'0'; 66];
+    bytes[1] = b'x';
+    let mut i = 0;
+    while i < 64 {
+        let n = s.u8();
+        s.assume(n < 16);
+        bytes[2 + i] = digit(n);
+        i += 1;
+    }
+    let text = match core::str::from_utf8(&bytes) {
+        Ok(t) => t,
+        Err(_) => return,
+    };
+    let back = U256::from_str_hex(text);
+    s.reached();
+    assert!(back.is_ok(), "PROBE parse symbolic digits");
+}
